@@ -426,6 +426,7 @@ func CheckTunnel(c *Ctx, t *Tun, mc ModelCfg, prop string) *TunVerdict {
 	// every packet from the gateway must be structurally well-formed
 	var ctrl []env.TunEvent
 	var dataIn []byte
+	chanOpenSeen := false
 	for _, e := range cl.Events {
 		switch e.Kind {
 		case "pkt":
@@ -435,6 +436,13 @@ func CheckTunnel(c *Ctx, t *Tun, mc ModelCfg, prop string) *TunVerdict {
 			}
 			if e.Pkt.Type == codec.PktHandshakeResponse && e.Pkt.Major == 7 && e.Pkt.Minor == 7 && t.Dup != nil {
 				failf(c, "C01", "second-in-channel-processed", "%s: a handshake sent on a second RDG_IN_DATA connection of the same connection id (opened %s) was processed and answered: two packet streams feed one tunnel; %s", name, map[int]string{1: "before the first body byte of the first IN channel", 2: "on the established tunnel"}[p.DupIn], cl.Describe())
+				return v
+			}
+			if e.Pkt.Type == codec.PktChannelResponse && e.Pkt.Status == 0 {
+				chanOpenSeen = true
+			}
+			if e.Pkt.Type == codec.PktData && !chanOpenSeen {
+				failf(c, "C16", "data-before-channel-response", "%s: the gateway sent a DATA packet before the channel response: the packet that answers the channel create is not a channel response; %s", name, cl.Describe())
 				return v
 			}
 			if e.Pkt.Type == codec.PktData {
